@@ -72,5 +72,7 @@ Emit ==
       [] Family = "dist3" -> [op |-> "d3", a |-> a, b |-> b, n |-> N]
       [] Family = "locate" -> [ring |-> pts, n |-> N]
       [] Family = "hull" -> [pts |-> pts, l |-> Layouts[aux]]
-      [] Family = "rdp" -> [pts |-> pts, stride |-> 2 + ((Len(pts) + aux) % 4), thr |-> Thr[aux + 1]])>>)
+      [] Family = "rdp" -> [pts |-> pts, thr |-> Thr[aux + 1],
+                                   \* the stride varies with the points themselves, not with the threshold
+                                   stride |-> 2 + ((Len(pts) + 2 * aux + (IF pts = <<>> THEN 0 ELSE pts[1][1] + pts[Len(pts)][2])) % 4)])>>)
 ====
